@@ -70,6 +70,9 @@ fn main() {
         let mut sizes: Vec<i64> = vec![0, 1, 2, 511, 512, 513, 8191, 8192, 8193];
         if cfg.pchunk.is_some() { for d in [-2i64, -1, 0, 1] { sizes.push(p - hl as i64 + d); sizes.push(p + d); sizes.push(2 * p + d); sizes.push(2 * p - hl as i64 + d); } }
         if cfg.enc == 2 { for k in 1..=3i64 { for d in [-1i64, 0, 1] { sizes.push(k * c + d); } } }
+        // the plaintext stream (packet headers, one-pass signatures, literal header in front of the payload) ending exactly
+        // on the 8 KiB buffer of the stream encryptors: every offset that the headers of some configuration can take up
+        for d in 0..=40i64 { if (d + ci as i64) % 2 == 0 && (thorough || ci % 3 == 0) { sizes.push(8192 - d); sizes.push(16384 - d); } }
         for _ in 0..2 { sizes.push(r.below(3000) as i64); }
         sizes.retain(|s| *s >= 0 && *s <= if thorough { 2_200_000 } else { 70_000 });
         sizes.sort(); sizes.dedup();
